@@ -16,6 +16,10 @@
 (* elements: each element is sanitised on its own, so a sample missing in  *)
 (* one element only is an isolated gap of the joint matrix (refused), not  *)
 (* a fully missing sample.                                                  *)
+(* wz: the user passes weights that are exactly zero at every feature that *)
+(* contains a NaN (a land/sea mask used as weights).  Zero weight does not *)
+(* make a NaN go away: the classification and the dropped sets are the     *)
+(* same function of the mask (C06_WeightsDoNotRescue).                     *)
 (* For cross-set models a second space enumerates the sets of fully        *)
 (* missing samples of the two fields.                                      *)
 (***************************************************************************)
@@ -23,8 +27,8 @@ EXTENDS Naturals, FiniteSets, TLC
 
 CONSTANTS NS, NF, MKinds, CrossNS
 
-VARIABLES kind, mask, rx, ry, pred, phase
-vars == <<kind, mask, rx, ry, pred, phase>>
+VARIABLES kind, mask, rx, ry, wz, pred, phase
+vars == <<kind, mask, rx, ry, wz, pred, phase>>
 
 GridKinds == {"DA", "DS2", "DA2S", "DAMI", "LIST2"}
 S == 1..NS
@@ -41,13 +45,17 @@ Classify(m) == IF m = {} THEN "clean" ELSE IF Rect(m) THEN "fullOnly" ELSE "isol
 \* cross-set: rows fully missing in X (rx) and in Y (ry)
 CrossVerdict(a, b) == IF a = b THEN "deletedFromBoth" ELSE "refusedOrDeletedUnion"
 
+NaNFeatures(m) == {f \in F : \E s \in S : <<s, f>> \in m}
 Init ==
     /\ phase = "cfg" /\ pred = [class |-> "none"]
     /\ kind \in MKinds
+
     /\ \/ (kind \in GridKinds /\ mask \in SUBSET Cells /\ rx = {} /\ ry = {})
        \* "CROSSLAG": the second field carries other sample labels (a lagged analysis); the fields are paired by
        \* position, so the verdict is the same function of the positions
        \/ (kind \in {"CROSS", "CROSSLAG"} /\ mask = {} /\ rx \in SUBSET (1..CrossNS) /\ ry \in SUBSET (1..CrossNS))
+    /\ wz \in BOOLEAN
+    /\ wz => (kind = "DA" /\ NaNFeatures(mask) \notin {{}, F})
 
 Decide ==
     /\ phase = "cfg" /\ phase' = "done"
@@ -56,7 +64,7 @@ Decide ==
                      enough |-> Cardinality((1..CrossNS) \ (rx \cup ry)) >= 3]
                ELSE [class |-> Classify(mask), dropS |-> S \ ValidS(mask), dropF |-> F \ ValidF(mask),
                      enough |-> Cardinality(ValidS(mask)) >= 2 /\ Cardinality(ValidF(mask)) >= 1]
-    /\ UNCHANGED <<kind, mask, rx, ry>>
+    /\ UNCHANGED <<kind, mask, rx, ry, wz>>
 
 Next == Decide
 Spec == Init /\ [][Next]_vars
@@ -66,6 +74,11 @@ C06_CriteriaAgree == (kind \in GridKinds) => (Rect(mask) <=> CodeOK(mask))
 C06_DropExactly ==
     (Done /\ kind \in GridKinds /\ pred.class # "isolated") =>
         \A s \in S, f \in F : (<<s, f>> \in mask) <=> (s \in pred.dropS \/ f \in pred.dropF)
+\* the verdict is a function of the mask alone: weights that vanish on the NaN features change nothing
+Verdict(m) == [class |-> Classify(m), dropS |-> S \ ValidS(m), dropF |-> F \ ValidF(m)]
+C06_WeightsDoNotRescue ==
+    (Done /\ kind \in GridKinds) => /\ pred.class = Verdict(mask).class /\ pred.dropS = Verdict(mask).dropS /\ pred.dropF = Verdict(mask).dropF
+                                    /\ wz => (pred.class = "isolated" \/ pred.dropF # {})
 C06_IsolatedRefused ==
     (Done /\ kind \in GridKinds) => ((pred.class = "isolated") <=> \E s \in ValidS(mask), f \in ValidF(mask) : <<s, f>> \in mask)
 =============================================================================
